@@ -4,6 +4,7 @@ import hashlib
 import io
 import json
 import os
+import random
 
 from harness.lib import sx as SX
 
@@ -25,7 +26,8 @@ RULE = ("(order) dependency graphs of 1-7 repositories over ids 0-9, random edge
         "repository (2-11 commits, 1-3 branches, forks/merges, build tags at random commits, unbuilt heads, pins "
         "that never decrease along a path and name existing component builds; a minority with decreasing / unknown / "
         "missing pins or with matching commits of its own, which are outside the oracle's domain or the model's) run "
-        "through ReposCollection.make_reports_data on harness-side mock git objects.  Version numbers take boundary "
+        "through ReposCollection.make_reports_data on harness-side mock git objects; a share with commit times spread "
+        "over several days inside the cut-off windows (spread_days).  Version numbers take boundary "
         "values: release series drawn from 1.1 (most), 0.9, 0.0, 0.1, 1.0, 10.240, 9.9 -> 9.10 / 10.0, 0.99 -> 0.100, the "
         "parent's own series; build numbers = commit id + offset in {0, -1 (first build is 0), 95 (99 -> 100), 4150}; a "
         "second component series that restarts its numbers (1.1.3 and 1.2.3 both exist); two build numbers on one "
@@ -75,7 +77,13 @@ TRUSTED_BASE = [
     "'?' fallback of get_saved_build_number are recognised in ak/ghist.py by harness/props/c07.py:gen_consts (ast, fail-closed)",
 ]
 ASSUMPTIONS = [
-    "commit times lie within the 30-day / 1-day cut-off windows (all mock commits are seconds apart)",
+    "commit times lie within the 30-day / 1-day cut-off windows: every commit of a repository is younger than (oldest "
+    "report-related build of each component it pins - _CHECK_COMPONENTS_CUTOFF_PERIOD) and no branch head is 30 days older "
+    "than a report-related build.  Most mock commits are seconds apart; ~250 quick collections spread the commit times over "
+    "0-11 days ('d' of a commit, components with builds in two branches, the older ones not in the branch analysed last); "
+    "whether such a case is inside the window is decided from the finished report (oldest build its bn_map still names: an "
+    "upper bound of the oldest report-related build) and a case outside is run with the flat times instead (obs 'flat'); "
+    "the model itself has no times: inside the windows they must not matter, which the correspondence and the oracle check",
     "the bump model describes one repository and the components it pins (any number); a collection is modelled as one "
     "such run per repository that pins components (dependency graphs of any shape in the order model); a component is "
     "its position in the parent's component list - the order of the components in the version file / the dicts is not "
@@ -291,6 +299,7 @@ def gen_consts(repo):
 
 # ------------------------------------------------------------------ mock git objects
 BASE_T = 1_700_000_000
+DAY = 86400
 
 
 class _Author:
@@ -316,13 +325,13 @@ class _Tree:
 
 
 class _Commit:
-    def __init__(self, repo_name, cid, message, files):
+    def __init__(self, repo_name, cid, message, files, day=0):
         self.cid = cid
         self.hexsha = hashlib.sha1(f"{repo_name}:{cid}".encode()).hexdigest()
         self.parents = []
         self.message = message
         self.tree = _Tree(files)
-        self.committed_date = BASE_T + cid
+        self.committed_date = BASE_T + cid + int(DAY * day)     # "d" of the commit spec: days after BASE_T (may be fractional)
         self.author = _Author()
 
 
@@ -438,7 +447,7 @@ class MockRepo:
             if c.get("ver") is not None:
                 files[SAVED_FILE] = "no version here\n" if c["ver"] == "bad" else f"{c['ver'][0]}.{c['ver'][1]}.77\n"
             msg = f"fix {SEARCH_TEXT} here" if c.get("m") else "unrelated"
-            self.commits[c["id"]] = _Commit(name, c["id"], msg, files)
+            self.commits[c["id"]] = _Commit(name, c["id"], msg, files, c.get("d", 0))
         for c in spec["commits"]:
             self.commits[c["id"]].parents = [self.commits[p] for p in c["p"]]
         self.by_hex = {c.hexsha: c for c in self.commits.values()}
@@ -791,11 +800,11 @@ def gen_parent(rng, comp, mode):
     return {"commits": _unique_tag_names(spec), "branches": branches}
 
 
-def gen_bump(rng, mode=None, linear_comp=None):
+def gen_bump(rng, mode=None, linear_comp=None, two=None):
     mode = mode or rng.choice(["domain", "domain", "domain", "wild"])
     for _ in range(50):
         linear = rng.random() < 0.45 if linear_comp is None else linear_comp
-        comp = gen_component(rng, linear, two_branches=rng.random() < 0.25)
+        comp = gen_component(rng, linear, two_branches=rng.random() < 0.25 if two is None else two)
         if any(not has_qm(v) for c in comp["commits"] for v in versions(c)):
             break
     par = gen_parent(rng, comp, mode)
@@ -898,7 +907,7 @@ TOPOLOGIES = {
 REPO_NAMES = ["app", "base", "core", "lib_a", "lib_b", "zeta", "mid", "top", "r2", "R1"]
 
 
-def gen_multi(rng, topo=None, mode=None):
+def gen_multi(rng, topo=None, mode=None, two=0.2):
     """a collection of 3-4 repositories in which a repository pins several components, a component is pinned by
     several repositories, or a component pins a sub-component; RBuild / RCommit iids start at 0 in every repository"""
     topo = topo or rng.choice(["fan2", "fan2", "fan2", "fan2", "fan3", "two_parents", "two_parents_fan", "chain",
@@ -919,7 +928,7 @@ def gen_multi(rng, topo=None, mode=None):
                 repos.append(dict(comp, name=names[i], comps=[]))
                 continue
             for _ in range(50):
-                comp = gen_component(rng, rng.random() < 0.5, two_branches=rng.random() < 0.2)
+                comp = gen_component(rng, rng.random() < 0.5, two_branches=rng.random() < two)
                 if any(not has_qm(v) for c in comp["commits"] for v in versions(c)):
                     break
             repos.append(dict(comp, name=names[i], comps=[]))
@@ -933,6 +942,39 @@ def gen_multi(rng, topo=None, mode=None):
             repos.append(own)
     rng.shuffle(repos)                    # the order in which the repositories are supplied
     return {"k": "bump", "repos": repos}
+
+
+def spread_days(rng, case, p):
+    """commit times spread over several days (a share p of the collections; all other mock commits are seconds apart):
+    "d" of a commit = days after BASE_T.  A repository's commits owned by its first branch (processing order) stay on
+    the first day, the commits that only later branches (the last one analysed: master) reach are days younger, so the
+    oldest report-related build of a component usually is NOT in the branch analysed last; the commits of the
+    repositories that pin components fall anywhere in between.  Whether the times of a case are inside the cut-off
+    windows (ASSUMPTIONS) is decided at run time from the report itself (_run_bump: a case outside is run with the
+    flat times)"""
+    if rng.random() >= p:
+        return case
+    specs = case["repos"] if "repos" in case else [case["comp"], case["par"]]
+    how = rng.choice(["branch", "branch", "branch", "random"])
+    gap = rng.choice([1.5, 2, 3, 5, 9])
+    pinned = set() if "repos" in case else None
+    if pinned is not None:
+        for r in specs:
+            pinned |= set(r.get("comps") or [])
+    for k, r in enumerate(specs):
+        is_comp = (k == 0) if pinned is None else r["name"] in pinned
+        own, brs = _own(r, _ancestors({c["id"]: c["p"] for c in r["commits"]}))
+        for c in r["commits"]:
+            if how == "random":
+                d = rng.choice([0, 0.5, 1, 2, 3, 4])
+            elif is_comp:
+                i = own.get(c["id"], len(brs))
+                d = (0 if i == 0 else gap + (i - 1)) + rng.choice([0, 0, 0.3, 0.6])
+            else:
+                d = rng.choice([0.2, 0.5, 0.8, 1, 1.4, gap - 0.7, gap, gap + 0.5, gap + 2])
+            if d:
+                c["d"] = d
+    return case
 
 
 def gen_cases(rng, tier):
@@ -957,6 +999,13 @@ def gen_cases(rng, tier):
         cases.append(with_disk(rng, gen_bump(rng), 0.2))
     for _ in range(3000 if big else 450):
         cases.append(with_disk(rng, gen_multi(rng), 0.3))
+    # commit times over several days, components with builds in two branches (own random stream: the cases above
+    # stay what they were)
+    rng2 = random.Random(rng.randrange(1 << 30))
+    for _ in range(1500 if big else 250):
+        c = gen_bump(rng2, mode="domain" if rng2.random() < 0.7 else None, two=rng2.random() < 0.8) if rng2.random() < 0.7 \
+            else gen_multi(rng2, two=0.7)
+        cases.append(spread_days(rng2, with_disk(rng2, c, 0.15), 1.0))
     return cases
 
 
@@ -1045,6 +1094,20 @@ def _run_order(case):
 
 
 def _run_bump(case):
+    obs = _run_bump_timed(case)
+    if obs.get("window") is False:
+        # some commit of a repository lies more than the cut-off period before the oldest report-related build of a
+        # component it pins (outside ASSUMPTIONS): the same histories with the flat times
+        flat = json.loads(json.dumps(case))
+        for r in (flat["repos"] if "repos" in flat else [flat["comp"], flat["par"]]):
+            for c in r["commits"]:
+                c.pop("d", None)
+        obs = _run_bump_timed(flat)
+        obs["flat"] = True
+    return obs
+
+
+def _run_bump_timed(case):
     if case.get("disk") is None:
         return _run_bump_in(case, None)
     import shutil
@@ -1111,6 +1174,19 @@ def _run_bump_in(case, root):
         rc = ReposCollection(objs)
         data = dict(rc.make_reports_data(SEARCH_TEXT))
 
+        # commit times: the oldest report-related build of every repository as the graph records it, and bounds for
+        # it taken from the finished graph: it is not younger than the oldest build the finished bn_map still names
+        # (a build number met again in a later branch replaces the entry) and not older than the oldest RBuild of any
+        # branch.  Is every commit of a repository inside the cut-off window of the components it pins (younger than
+        # the upper bound of the component's oldest report-related build minus the cut-off period)?
+        period = getattr(ghist, "_CHECK_COMPONENTS_CUTOFF_PERIOD", DAY)
+        oldest = {n: min([rb.rcommit.commit.committed_date for _, rb in data[n].bn_map.values()], default=None) for n in names}
+        mints = [[data[n].min_rbuild_timestamp, oldest[n],
+                  min([rb.rcommit.commit.committed_date for rbr in [x for x, _ in data[n].bn_map.values()] + list(data[n].branches) for rb in rbr.rbuilds.values()
+                       if rb.rcommit is not None], default=None)] for n in names]
+        window = all(oldest.get(comp) is None or c.committed_date > oldest[comp] - period
+                     for r in specs for comp in (r.get("comps") or []) for c in mocks[r["name"]].commits.values())
+
         def snapshot(d):
             return [[n, [[rb.iid, str(rb.build_num), [[a[0], str(a[1]), str(a[2])] for a in rb.included_at]]
                          for _, rb in sorted(d[n].brcommits.items())]] for n in sorted(d)]
@@ -1129,6 +1205,8 @@ def _run_bump_in(case, root):
             raise
         return {"r": ["err", SX.exc_name(e)], **({"refs": refs_seen} if refs_seen is not None else {})}
     out = _observe_bump(specs, names, data, rc, vers, again)
+    out["mints"] = mints
+    out["window"] = window
     if refs_seen is not None:
         out["refs"] = refs_seen
     return out
@@ -1479,6 +1557,14 @@ def _oracle_bump(case, obs):
                     "a second make_reports_data on the same collection " +
                     ("changed the included_at lists of the first report's builds" if not obs["again"][0] else
                      "records other included_at lists than the first one")))
+    names = [x["name"] for x in as_multi(case)["repos"]]
+    wrong = [f"{n}: {a} recorded, the oldest build its bn_map names is of {b}, its oldest report-related build of {lo}"
+             for n, (a, b, lo) in zip(names, obs.get("mints", []))
+             if (a is None) != (b is None) or a is not None and not (lo is not None and lo <= a <= b)]
+    if wrong:
+        res.append(("oldest-build-time-wrong",
+                    "RGraph.min_rbuild_timestamp (the time below which the repositories that pin this one stop looking at "
+                    "it) is not the commit time of the oldest report-related build: " + "; ".join(wrong[:2])))
     for pc, po in dom:
         for sig, msg in _oracle_pair(pc, po):
             if sig not in seen:
